@@ -403,6 +403,12 @@ def replay_schedule(tally, beh, state, obs_idx, seed, site="replay", state_id=No
             tally.add(site + ":continuity", "a draw does not start from the states the previous draw ended in",
                       dict(info, draw=i + 1, call=c), size)
             ok = False
+    # a draw of zero Gibbs steps (burn_in = 0 or steps = 0) leaves the chains where they are
+    for i, c in enumerate(out["calls"]):
+        if c["k"] == 0 and c["from"] != 0 and c["to"] != c["from"]:
+            tally.add(site + ":zero-steps-moved-the-chains", "a draw with k = 0 Gibbs steps returned other states than it started from",
+                      dict(info, draw=i + 1, call=c), size)
+            ok = False
     if cfg["L"] > 0:
         if cfg["ow"] and not out["user_is_last"]:
             tally.add(site + ":user-buffer:not-overwritten", "overwrite=True but initial_state does not hold the final chain states", info, size)
